@@ -208,10 +208,10 @@ func c17lExec(raw json.RawMessage) interface{} {
 			}
 		}
 	}
-	snap := func(after int) {
+	// one observation: settle, then read the bookkeeping and the semaphore
+	observe := func() c17lSnap {
 		ok, inInner, adj := wait()
-		sn := c17lSnap{After: after, Open: []int{}, Skipped: skipped, Settled: ok, InInner: inInner, AdjParked: adj}
-		skipped = []int{}
+		sn := c17lSnap{Open: []int{}, Settled: ok, InInner: inInner, AdjParked: adj}
 		st.mu.Lock()
 		sn.Accepted = len(st.accepted)
 		for i := range st.accepted {
@@ -220,9 +220,27 @@ func c17lExec(raw json.RawMessage) interface{} {
 			}
 		}
 		sn.MaxOpen = st.maxOpen
-		st.maxOpen = st.open
 		st.mu.Unlock()
 		sn.Cur, sn.Waiters = c17lPeek(l)
+		return sn
+	}
+	snap := func(after int) {
+		// a snapshot is taken only when two consecutive observations (each after its own settling
+		// scan) are identical: nothing moved between the goroutine dump and the reads
+		sn := observe()
+		for tries := 0; tries < 200; tries++ {
+			again := observe()
+			same := reflect.DeepEqual(sn, again)
+			sn = again
+			if same || !sn.Settled {
+				break
+			}
+		}
+		sn.After, sn.Skipped = after, skipped
+		skipped = []int{}
+		st.mu.Lock()
+		st.maxOpen = st.open
+		st.mu.Unlock()
 		obs.Snaps = append(obs.Snaps, sn)
 	}
 	for i, op := range in.Ops {
